@@ -30,8 +30,7 @@ let dump (force : bool) (d : document) : string =
         | XaChar (t, n, r) -> add (Printf.sprintf "r(%s;%s;%s)" (enc t) (enc n) (radix_s r))
         | XaEntity e -> unexp "u" e) a.xa_values;
     add "])" in
-  let is_ns (a : attr) =
-    (match a.xa_prefix with Some p -> ascii p = "xmlns" | None -> false) || ascii a.xa_local = "xmlns" in
+  let is_ns = attr_namespace in
   let pi (p : ppi) =
     add (Printf.sprintf "P(%s;%s)" (enc p.pi_target) (enc (match p.pi_value with Some c -> c | None -> []))) in
   let notation (n : notation) =
@@ -114,5 +113,6 @@ let () = register "parse" (fun words ->
        String.concat "" [
          "rest="; len o.po_rest; " "; dump force o.po_doc;
          "|ser="; enc o.po_ser; "|re="; reparse_s true o.po_re;
-         "|pretty="; enc o.po_pretty; "|pp="; reparse_s false o.po_pp ])
+         (if String.contains flags 'n' then ""
+          else "|pretty=" ^ enc o.po_pretty ^ "|pp=" ^ reparse_s false o.po_pp) ])
   | _ -> "badinput")
